@@ -22,7 +22,14 @@ CHECKS = {
 
 for _pid, _t in [("C01", "edit script accounting (every child exactly once, list order, diff-tree annotations)"),
                   ("C03", "cost = sum of parts in the diff tree, the flat edit list and the refined top-level edit"),
-                  ("C04", "monotone, sound, converging bounds (passive and active monitor around every Bounded class)")]:
+                  ("C04", "monotone, sound, converging bounds (passive and active monitor around every Bounded class)"),
+                  ("C02", "total cost == 0 <=> documents equal as data <=> main()'s exit-status expression (AST slice) is False <=> nothing marked; "
+                          "plus z3 validity queries `summary of the real levenshtein_distance == textbook DP` and `== 0 <=> equal` per length shape"),
+                  ("C08", "2-safety by self-composition: the same symbolic documents are diffed before and after permuting the keys of one mapping "
+                          "(generators of the permutation group, engine-chosen site) -- equal cost, equal pairing, permuted copy costs 0; list "
+                          "transpositions of unequal elements cost > 0"),
+                  ("C10", "'none' never pairs different keys, 'auto' pairs every shared key with itself, list modes give strictly positional "
+                          "pairs plus one surplus tail; BuildOptions -> node flags read back from the built trees")]:
     CHECKS[_pid] = dict(
         text="Bounded symbolic execution of the real diff engine on two documents built by the real json.build_tree whose leaf "
              "values are all symbolic (z3 decides every equality pattern, size relation, pairwise cost and through them every "
